@@ -225,6 +225,8 @@ def build(spec, loop=None):
                 b.edges[name].append((sp['members'][i]['name'], sp['members'][j]['name']))
             kw = dict(jobs_window=sp.get('window'), timeout=sp.get('timeout'),
                       shutdown_timeout=sp.get('shutdown_timeout', 1), name=name, trace=b.trace)
+            if spec.get('verbose'):
+                kw['verbose'] = True      # messages only (stdout is captured): must not change what happens
             if spec.get('watch'):
                 # one Watch shared by the whole tree, created when the tree is built (so older than every run);
                 # documented as a display aid only: it must not change what happens
